@@ -236,16 +236,17 @@ def b_optimizer(tier):
     from contracts import fixtures_opt as fx
     from pymbolic.mapper.optimize import optimize_mapper
     b = BoundedRun("optimizer", rule="optimize_mapper under all 32 on/off combinations of (drop_args, drop_kwargs, inline_rec, inline_cache, "
-                   "inline_get_cache_key) applied to fixture mappers (renamer with extra args, cached renamer, plain cached renamer, collector); "
+                   "inline_get_cache_key) applied to fixture mappers (renamer with extra args, cached renamer, plain cached renamer, collector, cached walker whose handlers return None, the stock node counter); "
                    "optimized vs. plain class on the expression set and on histories of length 2 on one instance (results, handler-call counts); "
                    "combinations that drop arguments are exercised only on calls without such arguments; non-trivial = option set with >= 1 option on",
-                   bound="32 option sets x 6 mappers x 15 expressions", functions=["pymbolic.mapper.optimize:optimize_mapper", "_RecInliner", "_VarArgsRemover", "_CacheKeyInliner"])
+                   bound="32 option sets x 8 mappers x 15 expressions", functions=["pymbolic.mapper.optimize:optimize_mapper", "_RecInliner", "_VarArgsRemover", "_CacheKeyInliner"])
     dom = domain()
     opts = ["drop_args", "drop_kwargs", "inline_rec", "inline_cache", "inline_get_cache_key"]
     # (name, class, cached, uses positional extras, uses keyword extras)
     subjects = [("Renamer", fx.Renamer, False, True, True), ("CachedRenamer", fx.CachedRenamer, True, True, True),
                 ("PlainCachedRenamer", fx.PlainCachedRenamer, True, False, False), ("VarCollector", fx.VarCollector, False, True, True),
-                ("KwRenamer", fx.KwRenamer, False, False, True), ("ArgRenamer", fx.ArgRenamer, False, True, False)]
+                ("KwRenamer", fx.KwRenamer, False, False, True), ("ArgRenamer", fx.ArgRenamer, False, True, False),
+                ("TallyWalker", fx.TallyWalker, True, False, False), ("CountNodes", fx.CountNodes, True, False, False)]
     for bits in itertools.product((False, True), repeat=5):
         o = dict(zip(opts, bits))
         for sname, cls, cached, uses_a, uses_k in subjects:
